@@ -441,7 +441,7 @@ def _gen_case(rng):
                 inside = [all(m[v] for v in c) for c in E["cells"]]
                 op = {"op": "copy", "mask": m, "cmask": [int(b and rng.chance(70)) for b in inside]}
             elif arity and rng.chance(25):
-                op = {"op": "copy", "mask": None, "cmask": [int(rng.chance(75)) for _ in range(nc if not rng.chance(6) else nc + 1)]}
+                op = {"op": "copy", "mask": None, "cmask": [int(rng.chance(75)) for _ in range(0 if rng.chance(4) else nc if not rng.chance(6) else nc + 1)]}
             else:
                 st = rng.weighted([("rand", 78), ("all", 8), ("none", 5), ("shape", 6), ("plain", 3)])
                 if st == "plain":
